@@ -5,6 +5,7 @@ import Ktm.Search
 import Ktm.CoreCount
 import Ktm.Props.C02
 import Ktm.GridReach
+import Ktm.Live
 /-! # C11 — no livelock, no early stop: IDLE only while work is in flight; STOPPED is justified
 
 Model: `Core.create` over an algorithm record; the three algorithms that can answer IDLE or STOPPED on
@@ -173,6 +174,35 @@ theorem grid_runs_bounded (space : List GridSucc.GHP) (hs : Grid.SpaceOK space) 
       omega
   have := Nat.mul_le_mul_right ((Grid.init space).maxRetries + 1) hlen
   omega
+
+/-- **liveness, part 1 — only IDLE answers can repeat.** Workers that always finish what they are given: a worker
+holding a trial ends it, a worker holding nothing asks, a worker told STOPPED does nothing more. Along EVERY
+interleaving of any number of such workers (any scheduler, fair or not), with any outcomes and any algorithm, at most
+`2 · N · (max_retries + 1)` steps hand out or end a trial under a budget of `N` trials … -/
+theorem productive_steps_bounded (alg : Alg V A) (a0 : A) (N maxRetries maxConsec : Nat) (as : List Live.Act) :
+    Live.productiveCount alg ⟨init (V := V) a0 (some N) maxRetries maxConsec, [], false⟩ as ≤ 2 * (N * (maxRetries + 1)) :=
+  Live.productive_bounded alg a0 N maxRetries maxConsec as
+
+/-- … STOPPED is answered to each worker at most once … -/
+theorem stopped_once (alg : Alg V A) (s : Live.Sys V A) (a : Live.Act) (hn : s.stopped.Nodup) :
+    (Live.sstep alg s a).stopped.Nodup := Live.stopped_nodup_step alg s a hn
+
+/-- **liveness, part 2 — waiting is never for nothing.** In every system state (oracle invariant, workers told
+STOPPED hold nothing — both preserved by every step), a worker that is answered IDLE waits for another worker that
+has not been told STOPPED and holds a trial, and that worker's next step, whatever its outcome, ends the trial.
+So as long as some worker has not been told STOPPED, some such worker's next step is not IDLE; with part 1, after
+at most `2·N·(R+1) + W` non-IDLE steps all `W` workers have been told STOPPED (or the failure streak aborted the search). -/
+theorem waiting_is_for_a_running_trial (alg : Alg V A) (hc : IdleOnlyWhileBusy alg) (s : Live.Sys V A) (h : Inv s.o)
+    (hs : Live.SInv s) (a : Live.Act) :
+    (step alg s.o (Live.wop s.o a)).2 ≠ .idle ∨
+    ∃ w', w' ≠ a.w ∧ w' ∉ s.stopped ∧ (holds s.o w').isSome ∧
+      ∀ (oc : Outcome) (c : Nat), (step alg s.o (Live.wop s.o ⟨w', oc, c⟩)).2 = .ok ∨
+                                  (step alg s.o (Live.wop s.o ⟨w', oc, c⟩)).2 = .abort :=
+  Live.no_livelock alg hc s h hs a
+
+/-- the side invariant of part 2 is kept by every step of every worker -/
+theorem stopped_workers_hold_nothing (alg : Alg V A) (s : Live.Sys V A) (a : Live.Act) (hs : Live.SInv s) :
+    Live.SInv (Live.sstep alg s a) := Live.sinv_step alg s a hs
 
 /-- the search loop of one tuner over any such oracle ends each trial it starts and terminates with
 STOPPED, a fatal error, an interrupt or the abort — within its fuel (C19's `search_trace`) -/
